@@ -17,6 +17,7 @@ DoInPlace(st, r, res) == [heap |-> [st.heap EXCEPT ![st.reg[r]] = IF res.ok THEN
 Apply(st, e) ==
     CASE e.op = "New"       -> DoAlloc(st, e.rd, Construct(e.seed))
       [] e.op = "SetCol"    -> DoInPlace(st, e.r, SetColT(TT(st, e.r), e.c, e.arg))
+      [] e.op = "SetFrom"   -> DoInPlace(st, e.r, IF HasCol(TT(st, e.r2), e.c2) THEN SetColT(TT(st, e.r), e.c, <<"l", ColVals(TT(st, e.r2), e.c2)>>) ELSE Err("KeyError"))
       [] e.op = "DelCol"    -> DoInPlace(st, e.r, DelColT(TT(st, e.r), e.c))
       [] e.op = "Update"    -> LET res == UpdateT(TT(st, e.r), e.items, 1) IN
                                [heap |-> [st.heap EXCEPT ![st.reg[e.r]] = res.t], reg |-> st.reg, out |-> res.err]
@@ -34,6 +35,7 @@ Apply(st, e) ==
       [] e.op = "DerivePair" -> DoAlloc(st, e.rd, DerivePairT(TT(st, e.r), e.c, e.f, e.c2, e.g))
       [] e.op = "Minus"     -> DoAlloc(st, e.rd, MinusColsT(TT(st, e.r), e.cs))
       [] e.op = "IAdd"      -> DoAlloc(st, e.r, ConcatT(TT(st, e.r), TT(st, e.rb)))           \* e += table: the name e holds e + table, nothing else moves
+      [] e.op = "ISub"      -> DoAlloc(st, e.r, MinusColsT(TT(st, e.r), e.cs))
       [] e.op = "IAddRecord" -> DoAlloc(st, e.r, ConcatT(TT(st, e.r), RecordT(e.rec)))
       [] e.op \in {"Copy", "NoFilter"} -> DoAlloc(st, e.rd, Ok(TT(st, e.r)))
       [] e.op \in {"AddNone", "ConcatOne", "IAddNone"} -> [heap |-> st.heap, reg |-> [st.reg EXCEPT ![e.rd] = st.reg[e.r]], out |-> "ok"]
